@@ -192,8 +192,18 @@ def run_mid(case, cx, words_universe):
         def rules_by_class(srch):
             d = digest(srch)
             name = d["classes"]
-            return {(name[k[0]], tuple(name[c] for c in k[1])) + tuple(tuple(x) if isinstance(x, (list, tuple)) else x
-                                                                       for x in k[2:]) for k in d["keys"]}
+            out = set()
+            for k in d["keys"]:
+                kids = [name[c] for c in k[1]]
+                if len(k) > 2 and isinstance(k[2], (list, tuple)) and len(k[2]) == len(kids):
+                    # forest keys: children with their shifts, in an order that does not depend
+                    # on how the run happened to number the classes
+                    pairs = sorted(zip(kids, k[2]))
+                    out.add((name[k[0]], tuple(p[0] for p in pairs), tuple(p[1] for p in pairs)) + tuple(k[3:]))
+                else:
+                    # the pruning databases sort the children of a key by label
+                    out.add((name[k[0]], tuple(sorted(kids))) + tuple(k[2:]))
+            return out
 
         ra, rr = rules_by_class(s), rules_by_class(ref.s)
         cx.count("resume.forest_universes_compared")
